@@ -27,7 +27,7 @@ def run(chk):
                                                           VERIF_N=str(nrand)), timeout=900)
     resf = os.path.join(wd, "c16_result.json")
     if not os.path.exists(resf):
-        raise vlib.MachineryError("C16 driver produced no result:\n" + t["out"][-3000:])
+        raise vlib.driver_failed("C16 driver produced no result", t["out"])
     res = json.load(open(resf))
     for v in (res["violations"] or []):
         chk.violation("compare-vs-tuple-order", v, dict(kind="c16", detail=v))
@@ -39,7 +39,7 @@ def run(chk):
         if v:
             chk.violation(v["sig"], v["desc"], dict(kind="panic"))
             return
-        raise vlib.MachineryError("C16 search-key driver failed:\n" + tk["out"][-3000:])
+        raise vlib.driver_failed("C16 search-key driver failed", tk["out"])
     resk = json.load(open(rk))
     for v in resk["violations"] or []:
         chk.violation(v["sig"], v["desc"], dict(kind="c16-keys", detail=v))
